@@ -99,6 +99,8 @@ func c12Maps() []c12map {
 		{name: "global zq", global: "zq"},
 		{name: "global deriveX", global: "deriveX"},
 		{name: "global Derive", global: "Derive"},
+		{name: "global goderive (contains the default prefix)", global: "goderive"},
+		{name: "global underived", global: "underived"},
 		{name: "equal=eq", override: map[string]string{"equal": "eq"}},
 		{name: "sort=srt", override: map[string]string{"sort": "srt"}},
 		{name: "equal=eq,compare=cmpr", override: map[string]string{"equal": "eq", "compare": "cmpr"}},
@@ -338,6 +340,29 @@ func checkC12(tier string) {
 				viol("global-prefix-not-textually-identical", firstDiff([]byte(defOut[it.pi]), []byte(inv)))
 			}
 		}
+		// the same package three times in one invocation (./...): every copy must get what the single run got
+		single := readFileOr(filepath.Join(dir, "derived.gen.go"), "")
+		mdir := filepath.Join(scratchDir, "c12", fmt.Sprintf("m%02d-%02d", it.pi, it.mi))
+		mfiles := pkgFiles{}
+		for _, sub := range []string{"a", "b", "c"} {
+			mfiles[sub+"/a.go"] = files["a.go"]
+		}
+		writePkg(mdir, mfiles)
+		defer removeAll(mdir)
+		mr := goderive(mdir, append(m.flags(), "./...")...)
+		mu.Lock()
+		runs++
+		mu.Unlock()
+		if mr.Exit != 0 {
+			viol("renamed-multi-package-run-fails", "three copies of the package in one ./... invocation: "+head(firstErrorLine(mr.Stderr), 200))
+			return
+		}
+		for _, sub := range []string{"a", "b", "c"} {
+			if got := readFileOr(filepath.Join(mdir, sub, "derived.gen.go"), ""); got != single {
+				viol("renamed-multi-package-output-differs", fmt.Sprintf("copy %s of the package in a ./... invocation: %s", sub, firstDiff([]byte(single), []byte(got))))
+				break
+			}
+		}
 	})
 	// registration order: every permutation of the plugins of a nested map, through the library API
 	perms, permViol := c12Permutations(rep, corpus)
@@ -350,7 +375,7 @@ func checkC12(tier string) {
 	rep.Cov["canonical_comparisons"] = compared
 	rep.Cov["textual_identity_checks"] = textual
 	rep.Cov["registration_permutations"] = perms
-	rep.Cov["rule"] = "state = (corpus package, prefix map): 9 packages whose calls request helpers across plugins x 16 prefix maps (4 global prefixes, 4 per-plugin override sets, 2 global+override combinations, 6 nested maps where one plugin's prefix is a proper prefix of another's, in both directions); the user sources are derived from the default-named ones by the same renaming; transition = one run of the real goderive with the flags; oracle: renamed run succeeds and type-checks, its functions equal the default run's as sets after naming every generated function plugin‹parameter types› (plugin = longest configured prefix), same imports, and for a bare -prefix the file is textually identical after the inverse substitution; registration order: an in-process driver built against the working tree registers the plugins of each nested map in every permutation and the output must not change"
+	rep.Cov["rule"] = "state = (corpus package, prefix map): 9 packages whose calls request helpers across plugins x 16 prefix maps (4 global prefixes, 4 per-plugin override sets, 2 global+override combinations, 6 nested maps where one plugin's prefix is a proper prefix of another's, in both directions); the user sources are derived from the default-named ones by the same renaming; transition = one run of the real goderive with the flags; oracle: renamed run succeeds and type-checks, its functions equal the default run's as sets after naming every generated function plugin‹parameter types› (plugin = longest configured prefix), same imports, and for a bare -prefix the file is textually identical after the inverse substitution; every (package, map) is also run as three copies of the package in one ./... invocation, each copy must receive the bytes of the single run; registration order: an in-process driver built against the working tree registers the plugins of each nested map in every permutation and the output must not change"
 	rep.Cov["bound"] = fmt.Sprintf("%d packages x 16 prefix maps + %d per-package nested maps (every ordered pair of plugins the package calls); %d registration permutations", len(corpus), len(maps)-16, perms)
 	rep.Cov["exhaustive"] = true
 	rep.Sample(map[string]interface{}{"package": corpus[0].name, "map": maps[10].name, "renamed_sources": renameSources(corpus[0].src, maps[10])})
